@@ -491,11 +491,26 @@ def rule_point_numbering(eng, rep, A, rule="C02-5.point-numbering"):
                     and isinstance(st.value, ast.Constant) and isinstance(st.value.value, bool):
                 flags.add(st.targets[0].id)
         flags = sorted(flags)
+        # `for i in range(N)` / `range(s, N)`: the test `i == <start>` is true on the first pass and false on every later one (R: flag replaced by `if i == 0:`);
+        # the pass number (0 before the loop, 1 first pass, 2 later) is kept in the flag part of the state under the key "@pass:i"
+        first_of = {}
+        for (h, kind, lst) in cfg.loops:
+            if kind == "for" and isinstance(lst.target, ast.Name) and isinstance(lst.iter, ast.Call) and isinstance(lst.iter.func, ast.Name) and lst.iter.func.id == "range" \
+                    and 1 <= len(lst.iter.args) <= 2:
+                start = 0 if len(lst.iter.args) == 1 else const_value(lst.iter.args[0])
+                if start is not None:
+                    first_of[lst.target.id] = (h, start, cfg.cfg_node(lst.iter))
+        pass_keys = sorted("@pass:" + v for v in first_of)
 
         def node_fn(n, s, cfg=cfg, nx=nx):
             cnt, fl = s
             d = cfg.g.nodes[n]
             st = d["ast"]
+            for v, (h, _start, itn) in first_of.items():
+                if n == itn:
+                    fd = dict(fl)
+                    fd["@pass:" + v] = 0
+                    fl = tuple(sorted(fd.items()))
             if d["kind"] == "stmt":
                 inc = _is_incr_of(st, nx)
                 if isinstance(inc, tuple):
@@ -511,6 +526,11 @@ def rule_point_numbering(eng, rep, A, rule="C02-5.point-numbering"):
             return [(cnt, fl)]
 
         def edge_fn(a, b, e, s, cfg=cfg):
+            for v, (h, _start, _itn) in first_of.items():
+                if a == h and e.get("label") == "iter":
+                    fd = dict(s[1])
+                    fd["@pass:" + v] = min((fd.get("@pass:" + v) or 0) + 1, 2)
+                    s = (s[0], tuple(sorted(fd.items())))
             if cfg.kind(a) == "cond" and e["label"] in (True, False):
                 at = atom_of(cfg.ast_of(a), e["label"])
                 if at.op in ("truth", "false") and isinstance(at.lhs, ast.Name) and at.lhs.id in flags:
@@ -518,9 +538,15 @@ def rule_point_numbering(eng, rep, A, rule="C02-5.point-numbering"):
                     want = at.op == "truth"
                     if val is not None and val != want:
                         return None
+                if at.op in ("eq", "ne") and isinstance(at.lhs, ast.Name) and at.lhs.id in first_of and const_value(at.rhs) == first_of[at.lhs.id][1]:
+                    ps = dict(s[1]).get("@pass:" + at.lhs.id)
+                    if ps == 1 and at.op == "ne":
+                        return None           # first pass: i == start holds
+                    if ps == 2 and at.op == "eq":
+                        return None           # later passes: i != start
             return s
 
-        init = (0, tuple(sorted((f, None) for f in flags)))
+        init = (0, tuple(sorted([(f, None) for f in flags] + [(k, 0) for k in pass_keys])))
         fl = Flow(cfg, init, node_fn, edge_fn)
         for n in sorted(call_nodes):
             site = eng.where(fi, cfg.ast_of(n))
